@@ -203,7 +203,10 @@ impl Check for C03 {
         let ncycles = 2 + r.usize_below(3);
         let mut cycles = Vec::new();
         let mut epoch = if r.chance(1, 2) { 0 } else { r.usize_below(nroots) };
-        let fixed_shipped = if r.chance(1, 2) { Some(0usize) } else { None };
+        // shipped-root policy of the history: always the oldest root, always the newest published
+        // root (a client that is re-shipped with every release), or something in between
+        let policy = r.below(6);
+        let fixed_shipped = if policy <= 1 { Some(0usize) } else { None };
         for _ in 0..ncycles {
             if epoch + 1 < nroots && r.chance(1, 2) {
                 epoch += 1 + r.usize_below(nroots - epoch - 1).min(1);
@@ -215,7 +218,12 @@ impl Check for C03 {
                 shipped: {
                     // a client's shipped root is only ever replaced by a newer one
                     let lo = cycles.last().map_or(0, |p: &Cycle| p.shipped);
-                    fixed_shipped.unwrap_or_else(|| lo + r.usize_below(epoch + 1 - lo))
+                    fixed_shipped.unwrap_or_else(|| match policy {
+                        2 => epoch,
+                        // shipped with the oldest root first, re-shipped with the newest afterwards
+                        4 | 5 => if cycles.is_empty() { 0 } else { epoch },
+                        _ => lo + r.usize_below(epoch + 1 - lo),
+                    })
                 },
                 ts_v: 1 + r.below(3),
                 snap_v: 1 + r.below(3),
